@@ -45,7 +45,8 @@ T_R2 = 'rewrite R2: format!(..) and Response::add_attribute(s) are dropped: even
 T_DEC = 'Decimal -> Decimal256 (implemented in math.rs through text) is value preserving (C18 not applicable)'
 T_CHAIN = 'chain semantics are a SPECIFICATION, not verified code: units/mlem_ledger.rs states it explicitly (a transfer / TransferFrom / Send moves exactly `amount` of one asset between exactly two balances and needs a positive covered amount; Mint / Burn change one balance and the supply; funds and cw20 Send deliver before the handler runs; messages of a transaction run in order and a failure reverts everything). The handler contracts pin the exact messages emitted; what those messages do to balances over a whole transaction is then machine-checked against that specification (obligations ledger.*)'
 
-PAIR_TRUST = [T_VERUS, T_U256, T_UINT128, T_INTO, T_DERIVE, T_CW, T_API, T_STORE, T_QUERY, T_SERDE, T_DERIVE2, T_R4, T_R2, T_DEC, T_OVERFLOW]
+T_FMT = 'AssetInfo Display (units/shim_fmt.rs): `write!(f, SPEC, x)` with one String argument is rewritten to Formatter::write_display(SPEC, x), ASSUMED to append x for the plain spec "{}" (any other spec: result unspecified, so the clause is rejected); AssetInfo::to_string stands for std\'s blanket ToString impl (fresh buffer, Display::fmt, panic on error) and is VERIFIED against fmt\'s contract; Result::unwrap_or_else is the Ok payload or the closure\'s result (std)'
+PAIR_TRUST = [T_VERUS, T_FMT, T_U256, T_UINT128, T_INTO, T_DERIVE, T_CW, T_API, T_STORE, T_QUERY, T_SERDE, T_DERIVE2, T_R4, T_R2, T_DEC, T_OVERFLOW]
 
 PROPS['C02'] = dict(
     units=[('u_pair.rs', 'B', None)], min_tagged=12, trusted=PAIR_TRUST,
@@ -68,7 +69,7 @@ PROPS['C09'] = dict(
     explanation='assert_sent_native_token_balance: Ok iff declared == amount of the first attached coin of that denom (0 when absent); provide_liquidity checks both declared assets before anything else (loop invariant), swap checks its offer first.',
 )
 PROPS['C10'] = dict(
-    units=[('u_pair.rs', 'B', None), ('u_factory.rs', 'B', ['factory', 'querier'])], min_tagged=6, trusted=PAIR_TRUST,
+    units=[('u_pair.rs', 'B', None), ('u_factory.rs', 'B', ['factory', 'querier']), ('u_text.rs', 'B', ['text'])], min_tagged=6, trusted=PAIR_TRUST,
     assumptions=['asset decimals differ by at most 19 (10u64.pow aborts above; the property ranges over 0..18)'],
     explanation='assert_max_spread: Ok => the guard predicate is false, Err(MaxSpreadAssertion) => it is true, and lemma_c10_belief / lemma_c10_plain turn the guard into the statement\'s four inequalities for all naturals.',
 )
@@ -78,7 +79,7 @@ PROPS['C12'] = dict(
     explanation='query_simulation pins (n, spread, c) to the same spec functions as swap does at (reserve before deposit, other reserve, offer); compute_offer_amount is pinned to the closed form with the never-above and rounding-bound lemmas; query_reverse_simulation passes (other reserve, ask reserve, ask).',
 )
 PROPS['C15'] = dict(
-    units=[('u_pair.rs', 'B', None)], min_tagged=8, trusted=PAIR_TRUST,
+    units=[('u_pair.rs', 'B', None), ('u_text.rs', 'B', ['text'])], min_tagged=8, trusted=PAIR_TRUST,
     assumptions=[],
     explanation='assert_slippage_tolerance / calc_price_drop / calc_slippage_tolerance: exact guard predicate in both directions, tolerance > 1 always an error, and lemma_c15 relates the guard to the statement\'s two inequalities; provide_liquidity passes deposits and reserves net of native deposits.',
 )
@@ -90,7 +91,7 @@ PROPS['C01']['assumptions'] = [T_CHAIN, 'router entry reaches swap only through 
 T_R6 = "rewrite R6': `.into_iter().map(closure capturing &mut).collect::<StdResult<Vec<_>>>()?` and `for x in v.into_iter().rev()` are unrolled into the equivalent explicit loops (declared rewrites listed per function); iteration order and early-exit-on-first-error are preserved"
 T_ROUTERQ = 'cross-contract query answers (factory Pair query, pair Simulation / ReverseSimulation queries) are NAMED by uninterpreted functions of the chain state (pair_of, sim_return, rev_offer) through admitted naming axioms on `answer`; what those queries return is proved on the pair / factory side; the wrappers in querier.rs are verified to send exactly that request'
 T_HASH = 'std HashMap<String,bool>: vstd hash-map specs plus two admitted axioms (a String is determined by its characters; String obeys the hash key model); HashMap::keys().len() rewritten to HashMap::len()'
-ROUTER_TRUST = [T_VERUS, T_UINT128, T_CW, T_API, T_STORE, T_QUERY, T_SERDE, T_DERIVE2, T_R4, T_R2, T_R6, T_ROUTERQ, T_HASH]
+ROUTER_TRUST = [T_VERUS, T_FMT, T_UINT128, T_CW, T_API, T_STORE, T_QUERY, T_SERDE, T_DERIVE2, T_R4, T_R2, T_R6, T_ROUTERQ, T_HASH]
 
 PROPS['C11'] = dict(
     units=[('u_router.rs', 'B', ['router', 'querier'])], min_tagged=8, trusted=ROUTER_TRUST,
@@ -116,7 +117,7 @@ PROPS['C07'] = dict(
 T_FSTORE = 'factory storage: cw-storage-plus Item/Map modelled as fields / ghost maps of a storage record; may_load never fails on typed storage; Map::range(storage, None | ExclusiveRaw(lo), None, Ascending) yields every stored record whose key is above lo exactly once, in ascending byte order of the keys, and stored values deserialize (MapPairs::range_all / range_from, axiom_sorted_keys); read_all_pairs and read_pairs are VERIFIED on top of that'
 T_BYTES = 'byte-level std facts: String::as_bytes is an injective function of the text (UTF-8), <[u8] as Ord>::cmp is lexicographic, Ordering::then, bool::cmp, u64::to_be_bytes is injective with 8 bytes; slice::sort_by on two elements / [T;2]::to_vec / Vec::extend_from_slice behave like the verified helpers'
 T_FQ = 'factory-side queries are projections of the chain state: native_decimals_of (factory allow-list query), cw20 token_info, pair_self_report (the pair\'s own Pair{} answer), reply_contract_addr (address parsed from the instantiate reply); Decimal256 -> text -> Decimal256 and the literal "0.003" are text (C18 n/a) and assumed'
-FACTORY_TRUST = [T_VERUS, T_CW, T_API, T_FSTORE, T_BYTES, T_FQ, T_SERDE, T_DERIVE2, T_R4, T_R2]
+FACTORY_TRUST = [T_VERUS, T_FMT, T_CW, T_API, T_FSTORE, T_BYTES, T_FQ, T_SERDE, T_DERIVE2, T_R4, T_R2]
 PROPS['C07']['trusted'] = sorted(set(PROPS['C07']['trusted'] + FACTORY_TRUST))
 PROPS['C05']['trusted'] = sorted(set(PROPS['C05']['trusted'] + FACTORY_TRUST))
 PROPS['C10']['trusted'] = sorted(set(PROPS['C10']['trusted'] + FACTORY_TRUST))
@@ -179,4 +180,7 @@ PROPS['C18'] = dict(
                  'through JSON = serde_json writes and reads these ASCII strings unchanged (dependency)'],
     explanation='Function against spec function: Decimal256::from_str is proved to return Ok exactly on the accepted grammar (when it returns) with the value the text denotes (text_denotes: whole*10^18 + fraction*10^(18-len)), Err for more than 18 fractional digits or more than one dot; in the no-abort mode it is proved not to abort and to return Ok whenever the denoted value fits 256 bits. Display::fmt is proved to write exactly render_dec(value) (whole, then "." and the 18-digit fraction without trailing zeros), never aborting; to_string is that output. lemma_c18_dec_roundtrip: for every d < 2^256 the rendering is accepted, denotes d and nothing else (numeral lemmas: value of the canonical numeral, leading zeros, trimmed trailing zeros, split at the single dot) => parse(render(d)) = d, directly and through the serde impls (serialize writes render_dec, visit_str is from_str). Uint256: from_str / try_from / visit_str return the value of the digit string, Display / String::from / serialize write the canonical numeral, lemma_c18_uint_roundtrip. Width: Uint256 <-> u64 / u128 / Uint128 (narrow.* / widen.* in both modes, shared with C08) and Decimal <-> Decimal256, which math.rs implements THROUGH TEXT: proved value-preserving (or aborting when it does not fit) from the two text contracts and the round-trip lemma.',
 )
+for _p in ('C10', 'C15'):
+    PROPS[_p]['trusted'] = sorted(set(PROPS[_p]['trusted'] + [T_TEXT]))
+    PROPS[_p]['explanation'] += ' The guard receives its Decimal arguments through `From<Decimal> for Decimal256` (implemented through text in math.rs): that conversion is proved value-preserving in the text unit.'
 
